@@ -695,6 +695,9 @@ def run(tier: str, seed: int) -> dict:
 
 
 def replay(case: dict):
+    if isinstance(case, dict) and case.get("kind") == "frame_walk":
+        from rtc.c02_frame import replay_frame_walk
+        return replay_frame_walk(case)
     _common.use_repo()
     ctx = _Ctx()
     if case.get("default_length"):
